@@ -64,7 +64,12 @@ def main():
                         os.remove(rp)
         finally:
             shutil.rmtree(tmp, ignore_errors=True)
-    missed = [o for o in out if o[1] != "caught"]
+    # mutants that do not violate the stated property (documented in DESIGN.md): surviving is the expected outcome
+    allowed = {"C13_lre_desc": "C13 never states which neighbours LRE uses", "C19d_steep": "only the magnitude below the hull changes, which C19 does not state"}
+    missed = [o for o in out if o[1] != "caught" and o[0] not in allowed]
+    for o in out:
+        if o[0] in allowed:
+            print("note: %s %s - not required (%s)" % (o[0], o[1], allowed[o[0]]))
     print("mutants: %d, caught: %d, not caught: %s" % (len(out), len(out) - len(missed), [o[0] for o in missed]))
     return 1 if missed else 0
 
